@@ -371,6 +371,11 @@ func (c *CEnv) ident(name string) CVal {
 	if sp, ok := e.P.CS.Specs[name]; ok && len(sp.Params) == 0 {
 		return c.ev(sp.Body)
 	}
+	if o := types.Universe.Lookup(name); o != nil {
+		if tn, ok := o.(*types.TypeName); ok {
+			return CVal{IsType: tn.Type()}
+		}
+	}
 	return c.fail("unknown identifier %q in contract", name)
 }
 
